@@ -636,6 +636,73 @@ func (c *Ctx) orderInsensitive(fi *load.FuncInfo, g *cfgx.Graph, rs *ast.RangeSt
 				}
 			}
 		}
+		// a comparator that orders only by a field which the collecting filter fixes to one value for all collected
+		// elements does not order anything: the slice stays in map order
+		{
+			fixed := map[*types.Var]bool{}
+			ast.Inspect(rs.Body, func(m ast.Node) bool {
+				as, ok := m.(*ast.AssignStmt)
+				if !ok || len(as.Lhs) != 1 {
+					return true
+				}
+				id, ok := as.Lhs[0].(*ast.Ident)
+				if !ok || astx.Obj(info, id) != o {
+					return true
+				}
+				for _, fct := range g.FactsAt(g.VertexOf(as)) {
+					be, ok := ast.Unparen(fct.Expr).(*ast.BinaryExpr)
+					if !ok || fct.Tag != nil || !((be.Op == token.EQL && fct.Val) || (be.Op == token.NEQ && !fct.Val)) {
+						continue
+					}
+					for _, side := range []ast.Expr{be.X, be.Y} {
+						if se, ok := ast.Unparen(side).(*ast.SelectorExpr); ok {
+							if fv := astx.FieldSel(info, se); fv != nil {
+								b := astx.BaseIdent(se)
+								if b != nil && (astx.Obj(info, b) == keyObj || astx.Obj(info, b) == valObj) {
+									fixed[fv] = true
+								}
+							}
+						}
+					}
+				}
+				return true
+			})
+			for _, sv := range sortV {
+				for _, call := range astx.Calls(g.V[sv].Node, false) {
+					if len(call.Args) != 2 {
+						continue
+					}
+					lit, ok := ast.Unparen(call.Args[1]).(*ast.FuncLit)
+					if !ok {
+						continue
+					}
+					var compared []*types.Var
+					ast.Inspect(lit.Body, func(m ast.Node) bool {
+						be, ok := m.(*ast.BinaryExpr)
+						if !ok || !(be.Op == token.LSS || be.Op == token.GTR || be.Op == token.LEQ || be.Op == token.GEQ) {
+							return true
+						}
+						for _, side := range []ast.Expr{be.X, be.Y} {
+							if se, ok := ast.Unparen(side).(*ast.SelectorExpr); ok {
+								if fv := astx.FieldSel(info, se); fv != nil {
+									compared = append(compared, fv)
+								}
+							}
+						}
+						return true
+					})
+					allFixed := len(compared) > 0
+					for _, fv := range compared {
+						if !fixed[fv] {
+							allFixed = false
+						}
+					}
+					if allFixed {
+						return false, "", "the elements are sorted by " + compared[0].Name() + " only, which the collecting filter fixes to a single value: the sort does not order them and the slice keeps the map's iteration order"
+					}
+				}
+			}
+		}
 		usedUnsorted := ""
 		isSortV := func(v int) bool {
 			for _, sv := range sortV {
